@@ -22,6 +22,8 @@ type Check struct {
 	Gen  func(*rapid.T) *world.Scenario
 	Mon  func(*world.Obs) *oracle.Result
 	Rule string
+	// Exec, if set, replaces "run the scenario, apply Mon" (used by metamorphic checks).
+	Exec func(t *testing.T, sc *world.Scenario) (*oracle.Result, string)
 }
 
 // KnownFinding is one entry of /verif/known_findings.json (read-only at run time).
@@ -120,14 +122,26 @@ func (r *runner) flush() {
 // judge runs one scenario and returns the violations not covered by a known finding.
 func (r *runner) judge(t *testing.T, sc *world.Scenario, count bool) []oracle.Violation {
 	_ = os.WriteFile(r.path("journal.json"), sc.JSON(), 0o644)
-	obs := world.Run(t, sc)
-	if p := oracle.HarnessProblem(obs); p != "" {
-		if count && !r.frozen {
-			r.stats.Inconclusive = append(r.stats.Inconclusive, p)
+	var res *oracle.Result
+	if r.c.Exec != nil {
+		var problem string
+		res, problem = r.c.Exec(t, sc)
+		if problem != "" {
+			if count && !r.frozen {
+				r.stats.Inconclusive = append(r.stats.Inconclusive, problem)
+			}
+			return nil
 		}
-		return nil
+	} else {
+		obs := world.Run(t, sc)
+		if p := oracle.HarnessProblem(obs); p != "" {
+			if count && !r.frozen {
+				r.stats.Inconclusive = append(r.stats.Inconclusive, p)
+			}
+			return nil
+		}
+		res = r.c.Mon(obs)
 	}
-	res := r.c.Mon(obs)
 	var bad []oracle.Violation
 	for _, v := range res.Violations {
 		matched := false
